@@ -388,20 +388,26 @@ func VerifV2In() {
 	ctx := wNewTask()
 	L, N := verifnd.Param("L", 2), verifnd.Param("N", 2)
 	lv, lt := wValue(lc, L, 1)
-	rv, rt := wValue(rc, L, N)
+	var rv any
+	var rt ast.DType
 	if rc == wcMap {
 		// map values of every class, nil included, and keys that are present as well as absent:
-		// key presence must not depend on the value
+		// key presence must not depend on the value. With a non-string left operand the
+		// contents do not matter (one representative).
 		m := map[string]any{}
 		names := []string{"k0", "k1", "k2"}
-		nk := verifnd.Int(0, N)
-		for i := 0; i < nk; i++ {
-			m[names[i]], _ = wScalar(verifnd.Int(wcNil, wcString), L)
-		}
-		rv = m
 		if lc == wcString {
+			nk := verifnd.Int(0, N)
+			for i := 0; i < nk; i++ {
+				m[names[i]], _ = wScalar(verifnd.Int(wcNil, wcString), L)
+			}
 			lv = []string{"k0", "k1", "zz", ""}[verifnd.Choice(4)]
+		} else {
+			m["k0"] = int64(1)
 		}
+		rv, rt = m, ast.Map
+	} else {
+		rv, rt = wValue(rc, L, N)
 	}
 	lk, rk := verifnd.Choice(3), verifnd.Choice(3)
 	expr := &ast.InExpr{Op: "in", LHS: wLeaf(ctx, "x", 1, lv, lt, lk), RHS: wLeaf(ctx, "y", 2, rv, rt, rk)}
